@@ -3021,6 +3021,18 @@ def extract_type(repo, rel, kind, name, opts, security, rec):
     first_line = src.line_of(a)
     sha = hashlib.sha256(orig.encode()).hexdigest()
     fired = []
+    # guard G-drop (DESIGN 11.2): `impl Drop for T` is code that runs IMPLICITLY wherever a T is discarded or
+    # overwritten - the extracted function text does not show it.  A unit may only extract such a type when it
+    # says `drop=ack` (the unit handles T behind references only, or models the drop); otherwise UNDECIDED, so
+    # that a NEW Drop impl on a verified type (seed C20g) is never silently ignored.
+    if opts.get('drop') != 'ack':
+        for oit in rscan.top_items(src):
+            if oit.kind == 'impl' and cfg_ok(oit.attrs, security):
+                tr, sty = rscan.impl_self_type(oit.header)
+                if tr is not None and re.sub(r'<.*', '', tr).strip().split('::')[-1] == 'Drop' and sty == name:
+                    raise Undecided('unsupported-construct', '%s has an `impl Drop` in %s (line %d): drop glue runs implicitly and is not '
+                                    'part of the extracted text (add drop=ack to the @@extract line only if the unit never discards a %s)'
+                                    % (name, rel, src.line_of(src.t(oit.start_si).pos), name))
     text = rw_cfg_statements(orig, security, fired)
     s2 = Src(text)
     ed = Edits(text)
